@@ -182,7 +182,7 @@ prop(
           dict(harness="uringrecv", driver="uringrecv", quick=dict(cases=3000), thorough=dict(cases=60000))],
     nontrivial=["mapped-source", "request-error", "err-trunc", "err-addr", "id-stale", "id-foreign", "id-forged", "reply-error", "announce+extension", "uring>cap", "reply-scrape", "all-in-flight", "skipped-taken-buffers", "prep-serfail"],
     level_text="Theorems for every datagram, source address and port, limit and validity oracle: a source holding no valid connection id obtains nothing or the 16-byte connect reply to a datagram of at least 16 bytes (both back ends); a non-connect reply implies that the id carried by the datagram is valid for the canonical source; port 0 is ignored; well-formed connect / announce / scrape requests (with any trailing extension bytes) get exactly the reply kind the request calls for with its transaction id, announces of the sender's family, scrapes cut to the first max_scrape_torrents hashes in order; invalid ids and unparseable datagrams get silence; io_uring decides like mio on every datagram its receive buffer holds. Send path of the mio worker with its resend buffer (Props/MioSend, every outcome of every send_to a parameter): each reply is, exactly once, on the wire, waiting in the resend buffer or dropped - no reply goes out twice, resends included; the buffer stays within resend_buffer_max_len and is empty after a resend pass (a reply is tried at most twice); the disable_resend_buffer arguments of the send_response calls are regenerated and pinned. Receive side of the io_uring worker (Props/UringRecv over Model/UringRecv: RecvMsgOut::parse as written, the sockaddr decoding and checks of recv_helper.rs): on every buffer the kernel writes, parse yields truncated iff the datagram exceeds buffer - 16 - name field (480 / 468 bytes: F6), else invalid-address iff the source port is 0, else the request parser's verdict on exactly the datagram with the canonical form of exactly the reported source - so handle_recv_cqe on kernel-written buffers IS handleUring on (source, datagram), the function the theorems above are about. Send side of the io_uring worker (Props/UringSend over Model/UringSend: the finite pool of reply buffers and the queue of computed replies, any pool size, arrivals, send phases, completions in any order): the buffer a reply is written into is free and never one the kernel may still be reading, a buffer is marked taken exactly when an uncompleted send uses it, replies leave the queue in order, each exactly once, and are then in flight, sent, or dropped only for not fitting the buffer (which C18 excludes for accepted configurations); a reply that finds no buffer stays at the head of the queue and goes out once a buffer is free. The full statement fails for io_uring beyond that (negation proved with a 24-hash scrape: finding F6). Tie: a tracker child process per case on loopback, several client sockets at once, every reply matched to the socket it arrived on and compared with the model's decision; the real SendBuffers driven in-process (hook) through generated prepare / completion / reset sequences, compared call by call with the model; the real RecvHelperV4 / V6 called in-process (hook) on generated recvmsg buffers (kernel-shaped and malformed).",
-    level_note="partial for the runtime part: kernel delivery; the EWOULDBLOCK / ENOBUFS outcomes of the mio send path are modelled (parameters) but cannot be provoked on loopback, only the sent path is exercised; the inline queue handling of the io_uring loop (modelled by hand, exercised by the socket-level runs only) and the source address the kernel reports are exercised by the runs, not modelled. Trusted: validity oracle = C05's theorem; access list = C11's.",
+    level_note="partial for the runtime part: kernel delivery; the EWOULDBLOCK / ENOBUFS outcomes of the mio send path are modelled (parameters) but cannot be provoked on loopback, only the sent path is exercised; the inline queue handling of the io_uring loop (modelled by hand; its deque operations are regenerated and pinned, the socket-level runs exercise it) and the source address the kernel reports are exercised by the runs, not modelled. Trusted: validity oracle = C05's theorem; access list = C11's.",
     design_ref="§8 C06",
     assumptions=["stale ids are produced on the mio back end only (the io_uring back end refreshes its clock by timer; same validator code)",
                  "replies are awaited for a bounded time; silence = no datagram within that time"],
